@@ -64,7 +64,11 @@ Fixpoint send_q (Delta : bits) (tb u : list bits) : list bits :=
 
 (* ot.TransposePackedBits: out[j][i] = in[i][j] *)
 Definition column (m : list bits) (j : nat) : bits := map (fun r => bit r j) m.
-Definition transpose (ncols : nat) (m : list bits) : list bits := map (column m) (seq 0 ncols).
+Fixpoint transpose (ncols : nat) (m : list bits) : list bits :=
+  match ncols with
+  | O => []
+  | S n => map (fun r => hd false r) m :: transpose n (map (@tl bool) m)
+  end.
 
 (* the output hash: H(sid, j, l, column) as a free term *)
 Inductive digest := Hash (j l : nat) (col : bits).
@@ -154,40 +158,71 @@ Fixpoint upd {A} (l : list A) (i : nat) (y : A) : list A :=
 
 (* ---------------------------------------------------------------- bf128 *)
 
-Local Open Scope N_scope.
+(* A field element is its coefficient vector, bit i = coefficient of X^i (the two uint64
+   limbs el[0], el[1] of the code, low bits first).  Vectors are zero-extended on demand. *)
 
-Definition m64 : N := 18446744073709551615.
-Definition lo64 (x : N) : N := N.land x m64.
+Fixpoint xorp (a b : bits) : bits :=            (* xor with zero extension *)
+  match a, b with
+  | [], _ => b
+  | _, [] => a
+  | x :: a', y :: b' => xorb x y :: xorp a' b'
+  end.
 
-(* shift-and-xor product of two 128-bit polynomials (up to 255 bits) *)
-Definition clmul (a b : N) : N :=
-  fold_left (fun acc i => if N.testbit a (N.of_nat i) then N.lxor acc (N.shiftl b (N.of_nat i)) else acc)
-            (seq 0 128) 0.
+Fixpoint fit (n : nat) (v : bits) : bits :=      (* exactly n bits: truncate or zero-extend *)
+  match n with
+  | O => []
+  | S n' => match v with [] => false :: fit n' [] | x :: v' => x :: fit n' v' end
+  end.
 
-(* one iteration of the reduction loop: fold limb [hi] = z[i] into (z[i-2], z[i-1]) *)
-Definition reduce_limb (hi zlo zmid : N) : N * N :=
-  let zlo := N.lxor zlo (lo64 (N.shiftl hi 7)) in
-  let zmid := N.lxor zmid (N.shiftr hi 57) in
-  let zlo := N.lxor zlo (lo64 (N.shiftl hi 2)) in
-  let zmid := N.lxor zmid (N.shiftr hi 62) in
-  let zlo := N.lxor zlo (lo64 (N.shiftl hi 1)) in
-  let zmid := N.lxor zmid (N.shiftr hi 63) in
-  let zlo := N.lxor zlo hi in
+(* shift-and-xor product (FieldElement.Mul, first loop): for each bit of a, low to high,
+   conditionally add b, then shift b left by one *)
+Fixpoint clmul (a b : bits) : bits :=
+  match a with
+  | [] => []
+  | x :: a' => xorp (if x then b else []) (false :: clmul a' b)
+  end.
+
+(* 64-bit limb operations: x << k and x >> k on uint64 *)
+Definition shl64 (x : bits) (k : nat) : bits := fit 64 (repeat false k ++ x).
+Definition shr64 (x : bits) (k : nat) : bits := fit 64 (skipn k x).
+Definition xor64 (x y : bits) : bits := fit 64 (xorp x y).
+
+(* one iteration of the reduction loop: fold limb hi = z[i] into (z[i-2], z[i-1]) *)
+Definition reduce_limb (hi zlo zmid : bits) : bits * bits :=
+  let zlo := xor64 zlo (shl64 hi 7) in
+  let zmid := xor64 zmid (shr64 hi 57) in
+  let zlo := xor64 zlo (shl64 hi 2) in
+  let zmid := xor64 zmid (shr64 hi 62) in
+  let zlo := xor64 zlo (shl64 hi 1) in
+  let zmid := xor64 zmid (shr64 hi 63) in
+  let zlo := xor64 zlo hi in
   (zlo, zmid).
 
-Definition bf_mul (a b : N) : N :=
-  let z := clmul a b in
-  let z0 := lo64 z in
-  let z1 := lo64 (N.shiftr z 64) in
-  let z2 := lo64 (N.shiftr z 128) in
-  let z3 := lo64 (N.shiftr z 192) in
+Definition bf_mul (a b : bits) : bits :=
+  let z := fit 256 (clmul (fit 128 a) (fit 128 b)) in
+  let z0 := firstn 64 z in
+  let z1 := firstn 64 (skipn 64 z) in
+  let z2 := firstn 64 (skipn 128 z) in
+  let z3 := firstn 64 (skipn 192 z) in
   let '(z1, z2) := reduce_limb z3 z1 z2 in
   let '(z0, z1) := reduce_limb z2 z0 z1 in
-  N.lor z0 (N.shiftl z1 64).
+  z0 ++ z1.
 
-Definition bf128 : c2ops N := {|
-  r0 := 0; r1 := 1; radd := N.lxor; rmul := bf_mul; reqb := N.eqb
+Fixpoint bits_eqb (a b : bits) : bool :=
+  match a, b with
+  | [], [] => true
+  | x :: a', y :: b' => Bool.eqb x y && bits_eqb a' b'
+  | _, _ => false
+  end.
+
+Definition bf_add (a b : bits) : bits := fit 128 (xorp a b).
+
+Definition bf128 : c2ops bits := {|
+  r0 := repeat false 128; r1 := true :: repeat false 127;
+  radd := bf_add; rmul := bf_mul; reqb := bits_eqb
 |}.
+
+Local Open Scope N_scope.
 
 (* packed bits (little-endian within a byte) <-> bytes *)
 Fixpoint byte_of_bits (k : nat) (v : bits) : N :=
@@ -206,26 +241,42 @@ Fixpoint bytes_of_bits_fuel (n : nat) (v : bits) : bytes :=
   end.
 Definition bytes_of_bits (v : bits) : bytes := bytes_of_bits_fuel (length v) v.
 
-Definition bits_of_byte (b : N) : bits := map (fun k => N.testbit b (N.of_nat k)) (seq 0 8).
+Fixpoint bits_of_N (k : nat) (n : N) : bits :=
+  match k with
+  | O => []
+  | S k' => N.odd n :: bits_of_N k' (N.div2 n)
+  end.
+Definition bits_of_byte (b : N) : bits := bits_of_N 8 b.
 Definition bits_of_bytes (l : bytes) : bits := flat_map bits_of_byte l.
 
-(* bf128.FromBytes of a packed 128-bit block: 16 bytes big-endian *)
-Definition emb128 (v : bits) : N := be_value (bytes_of_bits v).
-
 Local Close Scope N_scope.
+
+(* groups of 8 bits, in reverse group order *)
+Fixpoint rev_bytes_fuel (n : nat) (v acc : bits) : bits :=
+  match n with
+  | O => acc
+  | S n' => match v with
+            | [] => acc
+            | _ => rev_bytes_fuel n' (skipn 8 v) (firstn 8 v ++ acc)
+            end
+  end.
+
+(* bf128.FromBytes of a packed 128-bit block: the 16 bytes are big-endian, i.e. byte 15 holds
+   coefficients 0..7; FieldElement.Bytes is the same permutation *)
+Definition emb128 (v : bits) : bits := rev_bytes_fuel 16 (fit 128 v) [].
 
 (* the whole exchange on given PRG rows; returns what the harness can observe *)
 Record ext_run := mk_ext_run {
   er_u : list bits;
-  er_x : N; er_t : list N;
+  er_x : bits; er_t : list bits;
   er_q : list bits;
-  er_qdots : list N;
+  er_qdots : list bits;
   er_ok : bool;
   er_recv : list (list digest);
   er_send : list (list (digest * digest))
 }.
 
-Definition run_extension (L xi : nat) (Delta x sigma_bits : bits) (chi : list N) (t0 t1 : list bits) : ext_run :=
+Definition run_extension (L xi : nat) (Delta x sigma_bits : bits) (chi : list bits) (t0 t1 : list bits) : ext_run :=
   let x' := x_prime L x sigma_bits in
   let u := recv_u t0 t1 x' in
   let resp := compute_response bf128 emb128 128 chi x' t0 in
